@@ -78,30 +78,38 @@ def abs_to_cfg(a):
                          cache_dataframe=a["cache"], keep_cached_dataframe=a["keep"])
 
 
-def exec_prog(p, seen):
+class MarkerBase(BaseException):
+    """an exception outside the `Exception` hierarchy (like KeyboardInterrupt, SystemExit, pytest's outcomes)"""
+
+
+EXC_CLASSES = {"Exception": None, "BaseException": MarkerBase, "KeyboardInterrupt": KeyboardInterrupt}
+
+
+def exec_prog(p, seen, exc=None):
     from pandera.config import ValidationDepth, config_context, get_config_context
+    exc = exc or Marker
     if p == "skip":
         return
     if p == "raise":
-        raise Marker()
+        raise exc()
     if p == "observe":
         seen.append(cfg_to_abs(get_config_context(validation_depth_default=None)))
         return
     k = next(iter(p))
     x = p[k]
     if k == "seq":
-        exec_prog(x["a"], seen)
-        exec_prog(x["b"], seen)
+        exec_prog(x["a"], seen, exc)
+        exec_prog(x["b"], seen, exc)
     elif k == "ctx":
         o = x["o"]
         with config_context(validation_enabled=o["enabled"],
                             validation_depth=ValidationDepth(DEPTHS[o["depth"]]) if o["depth"] else None,
                             cache_dataframe=o["cache"], keep_cached_dataframe=o["keep"]):
-            exec_prog(x["body"], seen)
+            exec_prog(x["body"], seen, exc)
     elif k == "catch":
         try:
-            exec_prog(x["body"], seen)
-        except Marker:
+            exec_prog(x["body"], seen, exc)
+        except exc:
             pass
 
 
@@ -116,23 +124,34 @@ def run_progs(rep, cases):
             if "error" in a:
                 rep.correspondence_break(c, "driver: " + a["error"])
                 continue
-            cfgmod.reset_config_context(abs_to_cfg(c["cfg"]))
-            seen = []
-            raised = False
-            try:
-                exec_prog(c["prog"], seen)
-            except Marker:
-                raised = True
-            after = cfg_to_abs(cfgmod.get_config_context(validation_depth_default=None))
             rep.case(c, nontrivial="ctx" in json.dumps(c["prog"]))
-            rep.count("prog:raised" if raised else "prog:normal")
-            if after != c["cfg"]:
-                rep.property_failure(c, f"context configuration not restored: {after} != {c['cfg']}")
-            elif cfgmod.CONFIG != glob_before:
-                rep.property_failure(c, "the global configuration changed")
-            elif raised != a["raised"] or seen != a["seen"]:
-                rep.property_failure(c, "configuration in force inside the blocks differs from the documented "
-                                        "override/inherit rule", detail={"impl": [raised, seen], "model": a})
+            # the same program with the exception drawn from three classes (the model does not depend on the class)
+            for exc_name in (c.get("exc"),) if c.get("exc") else EXC_CLASSES:
+                exc = EXC_CLASSES[exc_name] or Marker
+                cfgmod.reset_config_context(abs_to_cfg(c["cfg"]))
+                seen = []
+                raised = False
+                try:
+                    exec_prog(c["prog"], seen, exc)
+                except exc:
+                    raised = True
+                after = cfg_to_abs(cfgmod.get_config_context(validation_depth_default=None))
+                rep.evaluations += 1
+                rep.count(("prog:raised:" if raised else "prog:normal:") + exc_name)
+                cc = dict(c, exc=exc_name)
+                if after != c["cfg"]:
+                    rep.property_failure(cc, f"context configuration not restored after leaving by {exc_name}: "
+                                             f"{after} != {c['cfg']}")
+                    break
+                elif cfgmod.CONFIG != glob_before:
+                    rep.property_failure(cc, "the global configuration changed")
+                    break
+                elif raised != a["raised"] or seen != a["seen"]:
+                    rep.property_failure(cc, "configuration in force inside the blocks differs from the documented "
+                                             "override/inherit rule", detail={"impl": [raised, seen], "model": a})
+                    break
+                if "raise" not in json.dumps(c["prog"]):
+                    break
     finally:
         cfgmod.reset_config_context(saved)
 
@@ -315,16 +334,23 @@ def run_polars_depth(rep):
         rep.count("polars:unavailable")
         return
     from pandera.config import ValidationDepth, config_context
-    schema = pap.DataFrameSchema({"a": pap.Column(int, pap.Check.gt(0))})
-    bad = pl.DataFrame({"a": [-1]})
+    variants = {
+        "check": (lambda: pap.Column(int, pap.Check.gt(0), name="a"), pl.DataFrame({"a": [-1]})),
+        "nullable": (lambda: pap.Column(int, name="a"), pl.DataFrame({"a": [1, None]})),
+        "unique": (lambda: pap.Column(int, unique=True, name="a"), pl.DataFrame({"a": [1, 1]})),
+    }
     cases = []
-    for is_lazy in (False, True):
-        for ctxd in (None, "schemaOnly", "dataOnly", "schemaAndData"):
-            cases.append({"mode": "polars", "isLazy": is_lazy,
-                          "ctx": {"enabled": True, "depth": ctxd, "cache": False, "keep": False},
-                          "glob": {"enabled": True, "depth": None, "cache": False, "keep": False}})
-    ans = run_driver("C18", cases)
+    for entry in ("DataFrameSchema", "Column"):
+        for vk in variants:
+            for is_lazy in (False, True):
+                for ctxd in (None, "schemaOnly", "dataOnly", "schemaAndData"):
+                    cases.append({"mode": "polars", "isLazy": is_lazy, "entry": entry, "violation": vk,
+                                  "ctx": {"enabled": True, "depth": ctxd, "cache": False, "keep": False},
+                                  "glob": {"enabled": True, "depth": None, "cache": False, "keep": False}})
+    ans = run_driver("C18", [{k: v for k, v in c.items() if k not in ("entry", "violation")} for c in cases])
     for c, a in zip(cases, ans):
+        mk, bad = variants[c["violation"]]
+        schema = mk() if c["entry"] == "Column" else pap.DataFrameSchema({"a": mk()})
         obj = bad.lazy() if c["isLazy"] else bad
         kw = {}
         if c["ctx"]["depth"]:
@@ -342,7 +368,8 @@ def run_polars_depth(rep):
         rep.count("polars-depth")
         documented = (c["ctx"]["depth"] in ("schemaAndData", "dataOnly")) or (c["ctx"]["depth"] is None and not c["isLazy"])
         if rejected != documented:
-            rep.property_failure(c, f"polars {'LazyFrame' if c['isLazy'] else 'DataFrame'} with context depth "
+            rep.property_failure(c, f"polars {c['entry']} on a {'LazyFrame' if c['isLazy'] else 'DataFrame'} "
+                                    f"({c['violation']} violation) with context depth "
                                     f"{c['ctx']['depth']}: data check ran={rejected}, documented={documented}")
         elif data_checks_run != rejected:
             rep.correspondence_break(c, "polarsDepth model differs from the implementation")
